@@ -435,7 +435,12 @@ func c18r4(c *RC) {
 		if len(tc.Body.List) > 0 {
 			if ifs, isIf := tc.Body.List[0].(*ast.IfStmt); isIf {
 				t := strings.ReplaceAll(expr(ifs.Cond), " ", "")
-				if t == "len(args)!=len(f.args)" || t == "len(f.args)!=len(args)" {
+				rv := recvOf(tc)
+				ap := "args"
+				if tc.Type.Params != nil && len(tc.Type.Params.List) == 1 && len(tc.Type.Params.List[0].Names) == 1 {
+					ap = tc.Type.Params.List[0].Names[0].Name
+				}
+				if t == "len("+ap+")!=len("+rv+".args)" || t == "len("+rv+".args)!=len("+ap+")" {
 					for _, k := range callsIn(ifs.Body) {
 						if isTypecheckPanic(tc.Pkg, k) {
 							ok = true
